@@ -67,7 +67,11 @@ func c16Digest(fn string, in c16HashInput) (d []byte, panicked string, err error
 				return nil, "", err
 			}
 		}
-		return common.SHA512_256(t...), "", nil
+		r := common.SHA512_256(t...)
+		if r == nil {
+			return nil, "", nil
+		}
+		return append([]byte{}, r...), "", nil // a copy: what a later call does to the returned slice is judged in the histories
 	case "SHA512_256i", "SHA512_256i_TAGGED":
 		t := make([]*big.Int, len(in.Ints))
 		for i, s := range in.Ints {
@@ -199,6 +203,8 @@ type c16HashState struct {
 	tagFrames  map[string][]byte                    // frame of the 1-tuple <<tag>> (from the bytes table)
 	drift      map[string]int
 	driftEx    []string
+	pairHits   map[string]int      // per function: adversarial pairs it maps to one digest
+	weakBy     map[string]bool     // framing variants under which some adversarial pair collides (TLC)
 	identified map[string][]string // per function: the framing variants of the specification whose probe frames hash to its digests
 }
 
@@ -292,7 +298,7 @@ func (h *c16HashState) bytesTable(out string, want int) error {
 			h.tagFrames[string(t[0])] = f
 		}
 		if firstLib == nil {
-			firstLib, firstFrame = lib, f
+			firstLib, firstFrame = append([]byte{}, lib...), f // (a copy: the library's slice is not the harness's to keep)
 		}
 		return nil
 	})
@@ -720,7 +726,7 @@ func (rl *c16RandomLong) conformance(out string, cov *core.Cov) error {
 	tag := []byte("C16 session tag")
 	// T = SHA512_256(tag); the frame of <<tag>> is taken from the same TLC run: not available here, so T comes from the
 	// library and only the composition T o T o Frame is checked for the tagged function at this size.
-	T := common.SHA512_256(tag)
+	T := append([]byte{}, common.SHA512_256(tag)...)
 	mism := map[string]int{}
 	for i := range rl.sample {
 		f1, err1 := c16ToBytes(fb[i])
